@@ -192,6 +192,12 @@ func propC15(c *Ctx, r *Report) {
 	}
 	r.floor("option.read", 8)
 	r.floor("spirv.Block.walkers", 3)
+	r.Clauses = append(r.Clauses, "two-sided guards (E70): a GLSL function that writes a read-zero guard around texelFetch / imageLoad and compares a coordinate, index, level or sample with the extent from above also compares it from below or converts it to unsigned",
+		"textures as arguments (E65): the GLSL resolver of an expression's image type also answers for a texture passed as a function argument (otherwise the Restrict policy references a clamped level it never declares)")
+	c.runLowerSide(r, "bounds.lowerside", "glsl/internal/codegen")
+	r.floor("bounds.lowerside", 1)
+	c.runImageTypeViaGlobal(r, "imagetype.viaglobal", inPkgs("glsl"))
+	r.floor("imagetype.viaglobal", 1)
 	r.floor("routing.index-sites", 3)
 	r.floor("hardened.ops", 6)
 }
